@@ -103,7 +103,7 @@ func restoreSnapshot(w *world.World, s snapshot) {
 func faultableSteps(h []world.Step) []world.Step {
 	var out []world.Step
 	for _, st := range h {
-		if st.Name == "lock.acquired" || st.Name == "lock.released" {
+		if st.Name == "lock.acquired" || st.Name == "lock.released" || st.Name == "plan" {
 			continue
 		}
 		out = append(out, st)
